@@ -63,49 +63,61 @@ pub fn c20(an: &Analysis<'_>, t: &mut Tally, idx: u64) {
         }
     }
     for (ci, cb) in out.cbs.iter().enumerate() {
+        // one witness per callback and signature (a chatty step would otherwise repeat it per log line)
+        let mut seen: HashMap<&'static str, (String, u64)> = HashMap::new();
+        let mut note = |sig: &'static str, detail: String| {
+            seen.entry(sig).or_insert((detail, 0)).1 += 1;
+        };
+        let att = att_of_cb.get(&ci).copied().filter(|&ai| an.groups[an.attempts[ai].group.unwrap()].sc_uid.is_some());
+        let unit = att.map(|ai| unit_events(an, ai, cb.kind, &cb.text));
+        if cb.logs.len() > 256 {
+            t.count("c20.callbacks_logging_more_than_256_lines_in_one_poll", 1);
+        } else if cb.logs.len() >= 100 {
+            t.count("c20.callbacks_logging_100_to_256_lines_in_one_poll", 1);
+        }
         for id in &cb.logs {
             emitted += 1;
             let places = delivered.remove(id).unwrap_or_default();
             if places.is_empty() {
-                viol("log:lost", format!("log {id} emitted by {:?} '{}' was never delivered as a Log event", cb.kind, cb.text), t);
+                note("log:lost", format!("log {id} emitted by {:?} '{}' was never delivered as a Log event", cb.kind, cb.text));
                 continue;
             }
             if places.len() > 1 {
-                viol("log:duplicated", format!("log {id} delivered {} times (events {places:?})", places.len()), t);
+                note("log:duplicated", format!("log {id} delivered {} times (events {places:?})", places.len()));
             }
-            let Some(&ai) = att_of_cb.get(&ci) else { continue };
+            // (attribution of identity-less groups is by order only)
+            let Some(ai) = att else { continue };
             let a = &an.attempts[ai];
-            if an.groups[a.group.unwrap()].sc_uid.is_none() {
-                continue; // attribution of identity-less groups is by order only
-            }
             *scen_logging.entry(a.sc_uid).or_insert(0) += 1;
             let at = places[0];
             let r = &out.evs[at];
             if r.s.map(|s| s.ptr) != Some(a.s_ptr) || r.retries != a.retries {
-                viol(
+                note(
                     "log:wrong-scenario",
                     format!("log {id} emitted by s{} attempt {:?} ({:?} '{}') was delivered as {}", a.sc_uid, a.retries, cb.kind, cb.text, r.short()),
-                    t,
                 );
                 continue;
             }
             // position: after the Started of the emitting unit, before its result
-            let (started, result) = unit_events(an, ai, cb.kind, &cb.text);
-            let (Some(st), Some(res)) = (started, result) else {
-                viol("log:unit-events-missing", format!("no Started/result events found for {:?} '{}' of s{}", cb.kind, cb.text, a.sc_uid), t);
+            let (Some(st), Some(res)) = unit.unwrap() else {
+                note("log:unit-events-missing", format!("no Started/result events found for {:?} '{}' of s{}", cb.kind, cb.text, a.sc_uid));
                 continue;
             };
             if at < st || at > res {
                 let sig = if cb.kind == CbKind::After && at < st { "log:after-hook-log-before-hook-started" } else if at < st { "log:before-unit-started" } else { "log:after-unit-result" };
-                viol(
+                note(
                     sig,
                     format!(
                         "log {id} of {:?} '{}' (s{} {:?}) is event #{at}, its unit's Started is #{st} and result is #{res}",
                         cb.kind, cb.text, a.sc_uid, a.retries
                     ),
-                    t,
                 );
             }
+        }
+        let mut seen: Vec<_> = seen.into_iter().collect();
+        seen.sort();
+        for (sig, (detail, n)) in seen {
+            viol(sig, if n > 1 { format!("{detail} (and {} more log line(s) of this callback)", n - 1) } else { detail }, t);
         }
     }
     for (id, places) in delivered {
